@@ -407,6 +407,17 @@ def k_refused_unit(ctx, what, seed):
         n = r.randrange(0, 6)                                    # declared data length too small for secondary header + CRC
         u = full[:4] + n.to_bytes(2, "big") + full[6:7 + n]
         dec = PusTc.unpack
+    elif what == "fd_short_for_offset":
+        cfg = C.rand_cfg(r, crc=r.getrandbits(1))
+        fss = 8 if cfg["large"] else 4
+        segmeta = r.getrandbits(1)
+        if segmeta:
+            ml = r.randrange(0, 10)
+            body = bytes([(r.getrandbits(2) << 6) | ml]) + rand_bytes(r, r.randrange(0, ml + fss))      # metadata and / or offset incomplete
+        else:
+            body = rand_bytes(r, r.randrange(0, fss))
+        u = R.assemble(cfg, 1, 0, body, segmeta=segmeta)
+        dec = X.FileDataPdu.unpack if r.random() < 0.5 else X.PduFactory.from_raw
     else:                                                        # directive PDUs whose data field is shorter than the directive's fixed fields
         kind = r.choice(("eof", "finished", "ack", "metadata", "nak", "prompt", "keep_alive"))
         cfg = C.rand_cfg(r, crc=r.getrandbits(1))
@@ -432,6 +443,8 @@ def k_refused_unit(ctx, what, seed):
         ctx.ev("refusal_independent_of_what_follows")
         if ok2:
             return ctx.fail("refusal_independent_of_what_follows", "unit_refused_alone_is_accepted_with_octets_behind_it", what, case, unit=u, suffix=sfx, observed=repr(got)[:200])
+        if not isinstance(got, documented_errors()):
+            return ctx.fail("refusal_independent_of_what_follows", "undocumented_error_when_octets_follow", f"{what}/{exc_sig(got)}", case, unit=u, suffix=sfx, error=repr(got))
 
 
 KINDS = {"refused_unit": k_refused_unit, "unit": k_unit, "back_to_back": k_back_to_back, "pdu": k_pdu, "pdu_stream": k_pdu_stream}
@@ -456,7 +469,7 @@ def run(ctx):
         ns = [r.choice(names)] * k if r.random() < 0.4 else [r.choice(names) for _ in range(k)]
         k_back_to_back(ctx, ns, ctx.seed * 1_000_003 + ctx.shard[0] * 50_021 + j)
     for j in range(ctx.n(300, 20_000)):
-        for what in ("tm_short_for_timestamp", "srv17_short_for_timestamp", "srv1_short_for_fields", "tc_short_length_field", "pdu_short_for_directive"):
+        for what in ("tm_short_for_timestamp", "srv17_short_for_timestamp", "srv1_short_for_fields", "tc_short_length_field", "pdu_short_for_directive", "fd_short_for_offset"):
             k_refused_unit(ctx, what, ctx.seed * 1_000_003 + ctx.shard[0] * 50_021 + j)
     preps = 8 if ctx.quick else 300
     for kind in C.KINDS8:
